@@ -81,7 +81,7 @@ theorem contentEq_of_perm {m : Mappings} {cs : AList JStr Class} (h : m.classes.
 theorem write?_congr {m m' : Mappings} (hw : wf m = true) (hw' : wf m' = true) (h : ContentEq m m') :
     write? m = write? m' := by
   unfold write? write
-  rw [displayable_congr h, writeLines_congr hw hw' h]
+  rw [writeOk_congr h, writeLines_congr hw hw' h]
 
 theorem write_canon (m : Mappings) : write (canon m) = write m := by
   unfold write
@@ -89,6 +89,6 @@ theorem write_canon (m : Mappings) : write (canon m) = write m := by
 
 theorem write?_canon (m : Mappings) : write? (canon m) = write? m := by
   unfold write?
-  rw [← displayable_congr (contentEq_canon m), write_canon]
+  rw [← writeOk_congr (contentEq_canon m), write_canon]
 
 end Tiny
